@@ -53,6 +53,9 @@ def enc(s):
         o = ord(ch)
         if ch == " ":
             out.append("~")
+        elif o > 0xffff:
+            o -= 0x10000
+            out.append("\\u%04x\\u%04x" % (0xd800 + (o >> 10), 0xdc00 + (o & 0x3ff)))
         elif ch in "~\\" or o < 0x21 or o > 0x7e:
             out.append("\\u%04x" % o)
         else:
@@ -411,6 +414,44 @@ def gen_ws(rng, n, ops):
             ops.append(("pint %d %s" % (rng.choice([0, 10, 16, 0, 2]), enc(t)), cls))
 
 
+# characters that look like digits / letters of numeric text but are not: non-ASCII decimal digits (Nd), superscripts,
+# roman numerals, full-width forms, an astral digit (surrogate pair), lone surrogates and H-H-L adjacency
+NOT_DIGITS = ["\u0663", "\u06f5", "\u0967", "\uff11", "\uff10", "\u00b2", "\u2160", "\u2082", "\U0001d7cf", "\U0001d7ec",
+              "\ud800", "\udc00", "\ud835\ud835\udfcf", "\udfcf\ud835", "\uff25", "\uff0e", "\uff0b", "\u2212", "\u221e", "\u0130"]
+
+
+def gen_unicode(rng, n, ops):
+    """non-ASCII digits, look-alike signs/points/exponent letters and (lone) surrogates before / inside / after numeric text:
+    Number must give NaN, parseFloat / parseInt must stop there"""
+    bodies = ["12", "1.5", "-7", "0x1f", "1e3", "9007199254740993", "0.000001", "123456789012345678901", "Infinity", "5e-324"]
+    for _ in range(n):
+        b = rng.choice(bodies)
+        c = rng.choice(NOT_DIGITS)
+        r = rng.random()
+        if r < 0.35:
+            t = b + c
+            cls = "uni-after"
+        elif r < 0.6:
+            t = c + b
+            cls = "uni-before"
+        elif r < 0.9 and len(b) > 1:
+            i = rng.randrange(1, len(b))
+            t = b[:i] + c + b[i:]
+            cls = "uni-inside"
+        else:
+            t = c * rng.randrange(1, 3)
+            cls = "uni-only"
+        if rng.random() < 0.3:
+            t = rng.choice(WS) + t + rng.choice(WS)
+        which = rng.randrange(3)
+        if which == 0:
+            ops.append(("num " + enc(t), cls))
+        elif which == 1:
+            ops.append(("pfloat " + enc(t), cls))
+        else:
+            ops.append(("pint %d %s" % (rng.choice([0, 10, 16, 36, 2]), enc(t)), cls))
+
+
 def gen_misc(rng, ops):
     for s in MISC_STRINGS:
         for op in ("num", "pfloat"):
@@ -423,19 +464,81 @@ def gen_misc(rng, ops):
         ops.append(("lit " + enc(s), "misc"))
 
 
+def few_bit_doubles(nbits):
+    """all positive finite doubles with at most `nbits` significant bits (normal and subnormal), as bit patterns"""
+    out = []
+    for e in range(1, 2047):
+        for m in range(1 << (nbits - 1)):
+            out.append((e << 52) | (m << (52 - (nbits - 1))))
+    seen = set()
+    for k in range(52):                       # subnormals: m·2^k with m < 2^nbits
+        for m in range(1, 1 << nbits):
+            v = m << k
+            if v < (1 << 52) and v not in seen:
+                seen.add(v)
+                out.append(v)
+    return out
+
+
+def float16_doubles():
+    """every positive finite IEEE binary16 value, as a double bit pattern (exact)"""
+    out = []
+    for h in range(1, 0x7c00):
+        e, m = h >> 10, h & 0x3ff
+        x = (m / 1024.0) * 2.0 ** -14 if e == 0 else (1 + m / 1024.0) * 2.0 ** (e - 15)
+        out.append(fbits(x))
+    return out
+
+
+def gen_exhaustive(shard, tier):
+    """EXHAUSTIVE small domains (enumerated, not sampled; op i goes to shard i mod NSHARDS; the sign alternates).
+    Returns (ops, {domain: total size})."""
+    ops, dom = [], {}
+    def emit(all_ops, name):
+        dom[name] = len(all_ops)
+        ops.extend((o, "exh:" + name) for i, o in enumerate(all_ops) if i % NSHARDS == shard)
+    def sgn(i, b):
+        return b | ((i & 1) << 63)
+    nb = 2 if tier == "quick" else 5
+    fb = few_bit_doubles(nb)
+    emit([op % hexbits(sgn(i, b)) for i, b in enumerate(fb) for op in (("tostr %s", "rt %s") if tier == "quick" else ("tostr %s", "rt %s", "expu %s"))],
+         "doubles-with<=%d-significant-bits x {String, Number(String)%s}" % (nb, "" if tier == "quick" else ", toExponential()"))
+    md = 1 if tier == "quick" else 2
+    dec = ["%de%d" % (m, e) for m in range(1, 10 ** md) for e in range(-330, 311)]
+    emit(["num " + enc(t) for t in dec], "decimal-strings-mantissa<=%d-digits x exponent -330..310 (Number)" % md)
+    if tier != "quick":
+        f16 = float16_doubles()
+        rr = random.Random(16)
+        allops = []
+        for i, b in enumerate(f16):
+            h = hexbits(sgn(i, b))
+            allops += ["tostr " + h, "rt " + h, "prec %s %d" % (h, rr.randrange(1, 22)), "fixed %s %d" % (h, rr.randrange(0, 31)),
+                       "radix %s %d" % (h, rr.randrange(2, 37))]
+        emit(allops, "all-finite-binary16-values x {String, Number(String), toPrecision, toFixed, toString(radix)}")
+        two = []
+        for r in range(2, 37):
+            for a in range(r):
+                for b in range(r):
+                    two.append("pint %d %s" % (r, enc(DIG[a] + DIG[b])))
+        emit(two, "all-two-digit-strings x radix 2..36 (parseInt)")
+    return ops, dom
+
+
 def gen_ops(seed, shard, tier):
     rng = random.Random(seed * 1000003 + shard * 7919 + (17 if tier == "thorough" else 0))
     f = 1 if tier == "quick" else 11
     ops = []
-    for (b, cls) in gen_doubles(rng, 300 * f):
+    for (b, cls) in gen_doubles(rng, 270 * f):
         ops_for_double(rng, b, cls, ops)
     gen_tie_ops(rng, 80 * f, ops)
-    gen_halfway_strings(rng, 300 * f, ops)
-    gen_random_decimal(rng, 400 * f, ops)
-    gen_int_strings(rng, 450 * f, ops)
+    gen_halfway_strings(rng, 280 * f, ops)
+    gen_random_decimal(rng, 360 * f, ops)
+    gen_int_strings(rng, 400 * f, ops)
     gen_ws(rng, 200 * f, ops)
+    gen_unicode(rng, 150 * f, ops)
     if shard == 0:
         gen_misc(rng, ops)
+    ops += gen_exhaustive(shard, tier)[0]
     return ops
 
 
@@ -539,14 +642,23 @@ def judge(ctx, harness, model, ops):
     return list(zip(ops, res, dl, verd)), None
 
 
-THEOREMS_MIN = 14
+THEOREMS_MIN = 32
 
 
 def main(ctx):
+    regen_ok = ctx.regen()        # Generated/C12_Layout.lean from ftoa/ftostr.go + builtin_number.go of the current tree
     ok, errs = ctx.lake_build(["GojaModel.C12.Props", "model_c12"])
+    # the Tie is built separately: if the regenerated decision structure changed, Props and the checker still build
+    # and the implementation-side search (the correspondence run below) still runs
+    tie_ok, tie_errs = ctx.lake_build(["GojaModel.C12.Tie"]) if regen_ok else (False, [])
+    ctx.obligation("tie:regenerated-layout-decisions(FToStr guards/switch/tail, Number.prototype front-ends)=expected", "tie",
+                   bool(regen_ok and tie_ok), "" if (regen_ok and tie_ok) else "regen_ok=%s %s" % (regen_ok, json.dumps(tie_errs)[:800]))
     ctx.audit("GojaModel.C12.Props", expect_min=THEOREMS_MIN)
+    if regen_ok and tie_ok and ctx.tier == "thorough":
+        ctx.audit("GojaModel.C12.Tie", expect_min=7)   # quick: Tie is re-checked by the build; its axioms are audited in thorough
     if ctx.tier == "thorough":
         ctx.leanchecker("GojaModel.C12.Props")
+        ctx.leanchecker("GojaModel.C12.Tie")
     ctx.log("lean build + audit done")
     harness = ctx.go_build("c12")
     ctx.log("harness built")
@@ -600,6 +712,7 @@ def main(ctx):
     ctx.obligation("corr:pipeline(harness+checker ran on every generated conversion)", "correspondence", not errors, "; ".join(errors)[:1500])
     # distinct non-trivial cases: distinct op lines (per shard; shards use different seeds) whose verdict is not a NaN/Inf/zero special
     ctx.nontrivial = set(range(nontriv))
+    ctx.stats["exhaustive_domains(enumerated completely, sizes in ops)"] = gen_exhaustive(0, ctx.tier)[1]
     ctx.stats["distinct_ops"] = distinct
     ctx.stats["op_mix"] = dict(opmix)
     ctx.stats["input_classes"] = dict(cls)
